@@ -67,6 +67,9 @@ trait Ext: FieldElement<BaseField = <Self as Ext>::B> + ExtensionOf<<Self as Ext
     fn co(&self) -> Vec<u128>;
     fn exp_u64(self, e: u64) -> Self;
     fn try_bytes(b: &[u8]) -> Option<Self>;
+    fn from_u32(v: u32) -> Self;
+    fn try_u64(v: u64) -> Option<Self>;
+    fn try_u128(v: u128) -> Option<Self>;
 }
 macro_rules! quad {
     ($b:ty, $tag:expr, $red:expr, $pi:ty) => {
@@ -79,6 +82,9 @@ macro_rules! quad {
             fn co(&self) -> Vec<u128> { self.to_base_elements().iter().map(|x| x.to()).collect() }
             fn exp_u64(self, e: u64) -> Self { self.exp(e as $pi) }
             fn try_bytes(b: &[u8]) -> Option<Self> { Self::try_from(b).ok() }
+            fn from_u32(v: u32) -> Self { Self::from(v) }
+            fn try_u64(v: u64) -> Option<Self> { Self::try_from(v).ok() }
+            fn try_u128(v: u128) -> Option<Self> { Self::try_from(v).ok() }
         }
     };
 }
@@ -93,6 +99,9 @@ macro_rules! cube {
             fn co(&self) -> Vec<u128> { self.to_base_elements().iter().map(|x| x.to()).collect() }
             fn exp_u64(self, e: u64) -> Self { self.exp(e as $pi) }
             fn try_bytes(b: &[u8]) -> Option<Self> { Self::try_from(b).ok() }
+            fn from_u32(v: u32) -> Self { Self::from(v) }
+            fn try_u64(v: u64) -> Option<Self> { Self::try_from(v).ok() }
+            fn try_u128(v: u128) -> Option<Self> { Self::try_from(v).ok() }
         }
     };
 }
@@ -427,9 +436,29 @@ fn falsify_field<E: Ext>(r: &mut Rng, n: usize, fails: &mut Fails, prog: &Progre
             if x.to_bytes() != want { bad.borrow_mut().push(("to_bytes = canonical LE coefficients".into(), hex_bytes(&want), hex_bytes(&x.to_bytes()))); }
             match E::read_from_bytes(&x.to_bytes()) { Ok(d) if d == x && d.co() == *a => {} _ => bad.borrow_mut().push(("read_from_bytes(to_bytes(a)) = a".into(), hexs(a), "mismatch".into())) }
             match E::try_bytes(&x.to_bytes()) { Some(d) if d == x => {} _ => bad.borrow_mut().push(("try_from(to_bytes(a)) = a".into(), hexs(a), "mismatch".into())) }
+            // compound assignment operators, integer conversions, raw byte views
+            let mut t = x; t += y; chk("+=", t.co(), (x + y).co());
+            let mut t = x; t -= y; chk("-=", t.co(), (x - y).co());
+            let mut t = x; t *= y; chk("*=", t.co(), ab.clone());
+            if *b != zero { let mut t = x; t /= y; chk("/=", t.co(), (x / y).co()); }
+            let small32 = (a[0] & 0xFFFF_FFFF) as u32;
+            let mut emb = zero.clone(); emb[0] = small32 as u128 % p;
+            chk("From<u32>", E::from_u32(small32).co(), emb);
+            let v128 = if r.chance(1, 2) { a[0] } else { p.wrapping_add(r.below(5) as u128) };
+            let mut e128 = zero.clone(); e128[0] = v128 % p;
+            let want128 = if v128 < p { Some(e128) } else { None };
+            if E::try_u128(v128).map(|e| e.co()) != want128 { bad.borrow_mut().push(("TryFrom<u128>".into(), format!("{:?}", want128), format!("{:?}", E::try_u128(v128).map(|e| e.co())))); }
+            let v64 = if r.chance(1, 2) { a[0] as u64 } else { (p as u64).wrapping_add(r.below(5)) };
+            let mut e64 = zero.clone(); e64[0] = v64 as u128;
+            let want64 = if (v64 as u128) < p { Some(e64) } else { None };
+            if E::try_u64(v64).map(|e| e.co()) != want64 { bad.borrow_mut().push(("TryFrom<u64>".into(), format!("{:?}", want64), format!("{:?}", E::try_u64(v64).map(|e| e.co())))); }
+            let raw = E::elements_as_bytes(&v);
+            if raw.len() != 3 * nn * nb { bad.borrow_mut().push(("elements_as_bytes length".into(), format!("{}", 3 * nn * nb), format!("{}", raw.len()))); }
+            match unsafe { E::bytes_as_elements(raw) } { Ok(w2) if w2 == &v[..] => {} _ => bad.borrow_mut().push(("bytes_as_elements(elements_as_bytes(v)) = v".into(), "v".into(), "other".into())) }
+            if unsafe { E::bytes_as_elements(&raw[..raw.len() - 1]) }.is_ok() { bad.borrow_mut().push(("bytes_as_elements accepts a partial element".into(), "Err".into(), "Ok".into())); }
             bad.into_inner()
         }));
-        evals += 30;
+        evals += 40;
         match res {
             Ok(bad) => for (what, exp, act) in bad { fails.emit(E::TAG, &what, desc.clone(), exp, act); },
             Err(msg) => fails.emit(E::TAG, &format!("panic: {}", msg), desc.clone(), "no panic".into(), "panic".into()),
